@@ -90,7 +90,7 @@ def polygon_recipe(rng, n, ns):
 
 def region_subsets(g, rng, how_many):
     """column selections: singles, strips, L-shapes, boundary-touching blocks, regions with holes, all"""
-    cols = list(g.columnlist)
+    cols = sorted(g.columnlist, key=G.ckey)
     xs = sorted({round(float(c.centre[0]), 9) for c in cols})
     ys = sorted({round(float(c.centre[1]), 9) for c in cols})
     out = []
@@ -121,7 +121,7 @@ def region_subsets(g, rng, how_many):
             out.append(rng.sample(cols, k))
         else:
             out.append(cols)
-    return [s for s in out if s]
+    return [s for s in out if s] or [cols]
 
 
 def refine_ops_for(g, rng, how_many):
@@ -130,7 +130,7 @@ def refine_ops_for(g, rng, how_many):
         a = {'cols': [G.col_loc(c) for c in sel], 'bisect': rng.choice([False, False, True, 'x', 'y'])}
         if rng.random() < 0.3:
             ids = {id(c) for c in sel}
-            nb = list({id(k): k for c in sel for k in c.neighbour if id(k) not in ids}.values())
+            nb = sorted({id(k): k for c in sel for k in c.neighbour if id(k) not in ids}.values(), key=G.ckey)
             if nb:
                 a['edge'] = [G.col_loc(c) for c in rng.sample(nb, min(len(nb), rng.randint(1, 3)))]
         ops.append(['refine', a])
@@ -172,7 +172,7 @@ def sequence_for(mg, recipe, rng):
     g = G.build(mg, recipe)
     ops = []
     for round_ in range(rng.randint(1, 3)):
-        cols = list(g.columnlist)
+        cols = sorted(g.columnlist, key=G.ckey)
         if len(cols) > 300:
             break
         big = [c for c in cols if c.num_nodes > 4]
@@ -271,9 +271,9 @@ class Chain:
     def before(self, step, op, g):
         return [o.before(step, op, g) for o in self.obs]
 
-    def after(self, step, op, g, exc, snap, prev, cur):
+    def after(self, step, op, g, exc, snap, prev, cur, info=None):
         for o, s in zip(self.obs, snap):
-            o.after(step, op, g, exc, s, prev, cur)
+            o.after(step, op, g, exc, s, prev, cur, info)
 
 
 # ----------------------------------------------------------------------------- correspondence with Model/Refine.lean
@@ -302,7 +302,7 @@ class RefineTie:
         safe = all(abs(a - np.pi) < 1e-9 or abs(a - np.pi) > 1e-2 for a in ang)
         return (st, safe)
 
-    def after(self, step, op, g, exc, snap, prev, cur):
+    def after(self, step, op, g, exc, snap, prev, cur, info=None):
         if snap is None or exc is not None:
             return
         name = op[0]
@@ -384,11 +384,11 @@ def compare_with_model(res, fac, model_cases):
         impl = canon_subs(c['subs'])
         if c['op'] == 'split_column':
             # the model answers with one line per possible split node; the real split must be one of them
-            options = [sorted(o.split('|')) for o in rep.split(' ; ')] if rep.startswith('c') else [[rep]]
+            options = [canon_subs([p.split() for p in o.split('|')]) for o in rep.split(' ; ')] if rep.startswith('c') else [[rep]]
             good = impl in options
             model = rep
         else:
-            model = sorted(rep.split('|')) if not rep.startswith('none') and not rep.startswith('exc') else [rep]
+            model = canon_subs([p.split() for p in rep.split('|')]) if not rep.startswith('none') and not rep.startswith('exc') else [rep]
             good = impl == model
         if not good:
             fac['disagreements'] += 1
